@@ -241,6 +241,20 @@ def run(out: Outcome) -> None:
         xs = [1 if rng.random() < 0.08 else 0 for _ in range(n_long)] + [1 if rng.random() < 0.45 else 0 for _ in range(rng.randint(300, 700))]
         xs += [1 if rng.random() < 0.1 else 0 for _ in range(rng.randint(200, 500))]
         check_rddm(out, {}, xs, runners)
+    # C03c.rddm_numWarnings_stale_witness replayed: RDDM(warning 0.5, drift 100, min_num_instances 1, max_concept 1000, min_concept 3, max warnings 1) on 1,0,1:
+    # warning at update 2, the warning-limit event (drift) at update 3 where DDM only warns
+    import frouros.detectors.concept_drift as cd
+    rd = cd.RDDM(config=cd.RDDMConfig(warning_level=0.5, drift_level=100.0, min_num_instances=1, max_concept_size=1000, min_concept_size=3, max_num_instances_warning=1))
+    dd = cd.DDM(config=cd.DDMConfig(warning_level=0.5, drift_level=100.0, min_num_instances=1))
+    tr = []
+    for x in (1, 0, 1):
+        rd.update(value=x)
+        dd.update(value=x)
+        tr.append((bool(rd.drift), bool(rd.warning), bool(dd.drift), bool(dd.warning)))
+    if tr[1][:2] != (False, True) or tr[2] != (True, False, False, True):
+        out.violation(f"RDDM/DDM on the stream of theorem C03c.rddm_numWarnings_stale_witness: (rddm drift, rddm warning, ddm drift, ddm warning) per update = {tr}; proved for the "
+                      "model: warning at update 2, then RDDM drift (warning-limit event) where DDM warns", {"class": "RDDM", "kind": "theorem witness"})
+    out.case({"theorem_witnesses": 1})
     corr.compare_batch(out, runners)
 
 
